@@ -148,7 +148,7 @@ func main() {
 		wdir, _ = os.MkdirTemp("", "govc-")
 		defer os.RemoveAll(wdir)
 	}
-	cfg := &SolverCfg{Dir: wdir, FirstMS: 10000, RaceMS: 10000, CoverMS: 4000, Workers: 16, Seed: seed}
+	cfg := &SolverCfg{Dir: wdir, FirstMS: 10000, RaceMS: 10000, CoverMS: 4000, HeadMS: 1500, Workers: 16, Seed: seed}
 	if *tier == "thorough" {
 		cfg.FirstMS, cfg.RaceMS, cfg.Second, cfg.CoverMS = 20000, 60000, true, 15000
 	}
@@ -188,6 +188,7 @@ type Report struct {
 	Bounded    []string
 	Callees    []string
 	Unreachable []string
+	Slow       int
 	ReplayNotes []string
 }
 
@@ -357,6 +358,19 @@ func (e *Engine) report(prop, tier string, seed int, results []*FuncResult, obls
 		b, _ := json.MarshalIndent(base, "", " ")
 		os.WriteFile(baselineFile, b, 0o644)
 	}
+	var slow []*Obligation
+	for _, o := range obls {
+		if !o.Cover && o.TimeMS > 2500 {
+			slow = append(slow, o)
+		}
+	}
+	sort.Slice(slow, func(i, j int) bool { return slow[i].TimeMS > slow[j].TimeMS })
+	for i, o := range slow {
+		if i < 8 {
+			fmt.Printf("  slow %6dms %s (%s %s)\n", o.TimeMS, o.Name, o.Status, o.Solver)
+		}
+	}
+	rep.Slow = len(slow)
 	fmt.Printf("property=%s tier=%s functions=%d obligations=%d discharged=%d failed=%d known=%d undecided=%d covers=%d\n",
 		prop, tier, len(rep.Funcs), rep.Total, rep.Discharged, len(rep.Failed), len(rep.KnownHit), len(rep.Undecided), rep.Covers)
 	switch {
@@ -394,7 +408,7 @@ func (rep *Report) writeEvidence(path, cmdline string) {
 			"checker_cmd": cmdline, "trusted_base": tb, "samples": rep.Samples,
 			"functions_under_contract": rep.Funcs, "by_solver": rep.BySolver, "second_solver_agreement": rep.Second,
 			"vacuity_covers_reachable": rep.Covers - len(rep.Unreachable), "vacuity_covers_total": rep.Covers, "unreachable_paths": rep.Unreachable,
-			"solver_time_ms": rep.SolverMS, "timing": rep.Timing,
+			"solver_time_ms": rep.SolverMS, "obligations_over_2500ms": rep.Slow, "timing": rep.Timing,
 			"undecided": rep.Undecided, "known_findings_hit": rep.KnownHit, "failed": failed,
 			"callee_contracts_relied_on": rep.Callees, "bounded_standins": rep.Bounded,
 			"explanation": "each obligation is an SMT query generated by govc from the typed AST of /repo's current working tree and the //@ contracts in the verif-tagged contract files; unsat of (assumptions and not goal) = proved for all inputs and iterations",
